@@ -125,7 +125,7 @@ class Box(AbstractSpace[Float[Array, " ..."], None]):
         return f"Box(low={self.low}, high={self.high})"
 
     def __hash__(self) -> int:
-        return hash((self.low.tobytes(), self.high.tobytes()))
+        return hash(((self.low + 0.0).tobytes(), (self.high + 0.0).tobytes()))
 
     def flatten_sample(self, sample: Float[Array, " ..."]) -> Float[Array, " n"]:
         return jnp.asarray(sample, dtype=float).ravel()
